@@ -19,7 +19,19 @@ fn tile_entries(rng: &mut Rng, n: usize, entropy: bool) -> Vec<REntry> {
     for _ in 0..n {
         let len = if entropy { rng.log_range(1, 1 << 20) as u32 } else { rng.range(1, 100) as u32 };
         let run = if rng.chance(1, 6) { rng.range(2, 9) as u32 } else { 1 };
-        let offset = if entropy && rng.chance(1, 4) { rng.below(1 << 40) } else { off };
+        let offset = if entropy && rng.chance(1, 4) {
+            rng.below(1 << 40)
+        } else if rng.chance(1, 40) && !v.is_empty() {
+            // exactly k * 2^32 bytes behind (or in front of) the previous entry's end: not contiguous, but aliased under 32-bit arithmetic
+            let k = rng.range(1, 3) << 32;
+            if rng.chance(1, 2) || off < k {
+                off + k
+            } else {
+                off - k
+            }
+        } else {
+            off
+        };
         v.push(REntry {
             tile_id: id,
             offset,
